@@ -648,7 +648,15 @@ where
             if let Some(id) = shared.next_free.pop() {
                 // SAFETY: `id` is the ID of a free slot, we have exclusive access
                 let (next_free, slot) = unsafe { self.use_free_slot(id) };
-                local.next_free.set(next_free);
+                if (shared.allocated as usize + CHUNK_SIZE as usize) < self.inner_nodes.slots.len() {
+                    local.next_free.set(next_free);
+                } else if next_free != 0 {
+                    // Slots are scarce (no further chunk can be pre-allocated):
+                    // as for uninitialized slots below, hand out one slot at a
+                    // time such that no worker hoards free slots another
+                    // worker runs out of.
+                    shared.next_free.push(next_free);
+                }
                 return Ok((id, slot));
             }
 
